@@ -1172,6 +1172,8 @@ impl Check for C31 {
     }
 
     fn run(&self, ctx: &Ctx, rep: &mut Reporter) {
+        // recorded first so that a capped run still carries a sample
+        rep.sample(|| json!({"pass": "small", "kinds": ["Int2", "Text", "Float4"], "row": [1, 2, 5], "meaning": "Int2 MIN, 300-byte text, NaN"}));
         for name in ["rows", "glue_rows", "wide_rows", "robust_index-out-of-range_err", "robust_wrong-type_err", "robust_declared-type_ok", "zero_copy_vector_ok", "zero_copy_vector_refused_misaligned"] {
             rep.expect_nonzero(name);
         }
@@ -1195,7 +1197,6 @@ impl Check for C31 {
                     return;
                 }
             }
-            rep.sample(|| json!({"pass": "small", "kinds": ["Int2", "Text", "Float4"], "row": [1, 2, 5], "meaning": "Int2 MIN, 300-byte text, NaN"}));
         }
         // ---- pass robust ------------------------------------------------------------------------
         if on("robust") {
